@@ -3,6 +3,7 @@ package diff
 import (
 	"fmt"
 	"reflect"
+	"sort"
 	"strings"
 
 	"github.com/go-openapi/spec"
@@ -135,8 +136,15 @@ func (sd *SpecAnalyser) AnalyseDefinitions() {
 		alreadyReferenced[k] = true
 	}
 	location := DifferenceLocation{Node: &Node{Field: "Spec Definitions"}}
-	for name1, sch := range sd.Definitions1 {
-		schema1 := sch
+	// comparing a definition marks the definitions it refers to as compared: visit them in a stable
+	// order, for the report not to depend on the iteration order of the map
+	names1 := make([]string, 0, len(sd.Definitions1))
+	for name1 := range sd.Definitions1 {
+		names1 = append(names1, name1)
+	}
+	sort.Strings(names1)
+	for _, name1 := range names1 {
+		schema1 := sd.Definitions1[name1]
 		if _, ok := alreadyReferenced[name1]; !ok {
 			childLocation := location.AddNode(&Node{Field: name1})
 			if schema2, ok := sd.Definitions2[name1]; ok {
